@@ -61,12 +61,15 @@ example : place 4 7 1 2 [⟨1, 1, [("atomname", "BB")]⟩, ⟨1, 2, [("atomname"
 
 /-! ### layout and interactions -/
 
-/-- **C01_layout.**  For every force field, every table `node_to_block` and every residue list whose
+/-- **C01_layout** (`_partial`: two hypotheses are forced by known findings of the program, everything else
+is the quantifier of the property — missing: residue ids starting at 0, `1 ≤ start`, finding resid-start-0,
+`C01_layout_resid0_counterexample`; single-residue blocks whose atoms carry a resid other than 1,
+`SingleBlock`, finding block-resid-not-1, `C01_layout_block_resid_counterexample`).  For every force field, every table `node_to_block` and every residue list whose
 resids are pairwise distinct and contiguous (a permutation of `start, start+1, …`, any `start ≥ 1`, any
 insertion order) and whose residue names resolve to single-residue blocks, `add_blocks` succeeds and
 the atom list is exactly the specification's: the concatenation, in resid order, of the re-indexed
 blocks.  Induction over the sorted list: any number of residues, any block sizes. -/
-theorem C01_layout (ff : FF) (t : Tables κ) (nodes : List (ResNode κ)) (start : Nat)
+theorem C01_layout_partial (ff : FF) (t : Tables κ) (nodes : List (ResNode κ)) (start : Nat)
     (hne : nodes ≠ []) (hstart : 1 ≤ start)
     (hres : (nodes.map (·.resid)).Perm (List.range' start nodes.length))
     (hreg : ∀ n ∈ nodes, RegularNode ff t n) :
@@ -81,10 +84,10 @@ theorem C01_layout (ff : FF) (t : Tables κ) (nodes : List (ResNode κ)) (start 
     (fun n hn => hreg n (hperm.mem_iff.mp hn)) (sortByResid_range nodes start hres)
   exact ⟨st, h1, h2⟩
 
-/-- **C01_interactions.**  Under the same hypotheses every block interaction occurs once per instance,
+/-- **C01_interactions** (`_partial` for the same two reasons).  Under the same hypotheses every block interaction occurs once per instance,
 its atoms shifted by the instance's atom offset, parameters and meta unchanged, and nothing else is
 present before links: the interaction list IS the specification's list. -/
-theorem C01_interactions (ff : FF) (t : Tables κ) (nodes : List (ResNode κ)) (start : Nat)
+theorem C01_interactions_partial (ff : FF) (t : Tables κ) (nodes : List (ResNode κ)) (start : Nat)
     (hne : nodes ≠ []) (hstart : 1 ≤ start)
     (hres : (nodes.map (·.resid)).Perm (List.range' start nodes.length))
     (hreg : ∀ n ∈ nodes, RegularNode ff t n) :
@@ -99,7 +102,25 @@ theorem C01_interactions (ff : FF) (t : Tables κ) (nodes : List (ResNode κ)) (
     (fun n hn => hreg n (hperm.mem_iff.mp hn)) (sortByResid_range nodes start hres)
   exact ⟨st, h1, h3⟩
 
-/-- **C01_multires.**  The same two statements for any mix of regular residues and copies of
+/-- **C01_graphs** (`_partial` for the same two reasons as `C01_layout_partial`).  The `graph` attribute of
+every residue node — what links and modifications later address as "the atoms of this residue" — is exactly
+the atom range of the residue's block copy: residue `r` owns nodes `off r, …, off r + size − 1`. -/
+theorem C01_graphs_partial (ff : FF) (t : Tables κ) (nodes : List (ResNode κ)) (start : Nat)
+    (hne : nodes ≠ []) (hstart : 1 ≤ start)
+    (hres : (nodes.map (·.resid)).Perm (List.range' start nodes.length))
+    (hreg : ∀ n ∈ nodes, RegularNode ff t n) :
+    ∃ st, addBlocks ff t nodes = .ok st ∧ st.graphs = specGraphs ff 0 (sortByResid nodes) := by
+  have hperm := sortByResid_perm nodes
+  have hne' : sortByResid nodes ≠ [] := by
+    intro h
+    have := hperm.length_eq
+    rw [h] at this
+    exact hne (List.length_eq_zero_iff.mp this.symm)
+  exact addBlocksSorted_regular_graphs ff t (sortByResid nodes) start hne' hstart
+    (fun n hn => hreg n (hperm.mem_iff.mp hn)) (sortByResid_range nodes start hres)
+
+/-- **C01_multires** (`_partial`: missing is a copy on the first residues of a graph whose resids do not
+start at 1, hypothesis `hfirst`, known finding multires-first-resid-not-1).  The same two statements for any mix of regular residues and copies of
 multi-residue blocks (`from_itp`): whenever the resid-sorted residue list is cut into segments — single
 regular residues, and runs of `nres` residues forming one copy of a multi-residue block whose fragment
 bookkeeping is in place (`SegsOK`: the copy is some fragment, in any numbering, and the fragment lists
@@ -107,7 +128,7 @@ exactly the copy's nodes) — `k·m` `from_itp` nodes become `k` copies of the `
 offset per copy.  When the very first residue belongs to a copy the program does not re-base the block's
 resids, hence `start = 1` is required there (known finding multires-first-resid-not-1, counterexample
 `C01_multires_first_resid_counterexample`). -/
-theorem C01_multires (ff : FF) (t : Tables κ) (nodes : List (ResNode κ)) (segs : List (Seg κ)) (start : Nat)
+theorem C01_multires_partial (ff : FF) (t : Tables κ) (nodes : List (ResNode κ)) (segs : List (Seg κ)) (start : Nat)
     (hsorted : sortByResid nodes = segNodes segs)
     (hne : segs ≠ []) (hstart : 1 ≤ start)
     (hfirst : ∀ n others rest, segs = .multi n others :: rest → start = 1)
@@ -123,7 +144,7 @@ theorem C01_multires (ff : FF) (t : Tables κ) (nodes : List (ResNode κ)) (segs
   rw [hsorted] at hr hk ⊢
   exact addBlocksSorted_segs ff t segs start hne hstart hfirst hk hok hr
 
-/-- The hypothesis `hfirst` of `C01_multires` cannot be dropped — known finding
+/-- The hypothesis `hfirst` of `C01_multires_partial` cannot be dropped — known finding
 multires-first-resid-not-1: a copy of the two-residue block on the FIRST residues of a graph whose resids
 start at 7 keeps the block's own resids 1, 2 (the specification demands 7, 8). -/
 theorem C01_multires_first_resid_counterexample :
@@ -133,7 +154,7 @@ theorem C01_multires_first_resid_counterexample :
     (specMol Ex.ff ([⟨1, 7, "R1", some "MR"⟩, ⟨2, 8, "R2", some "MR"⟩] : List (ResNode Nat))).atoms.map (·.resid) =
       [7, 7, 8] := by decide
 
-/-- The hypothesis `1 ≤ start` of `C01_layout` cannot be dropped — known finding resid-start-0 (vermouth's
+/-- The hypothesis `1 ≤ start` of `C01_layout_partial` cannot be dropped — known finding resid-start-0 (vermouth's
 `merge_molecule` reads the charge-group offset from the FIRST atom when every resid so far is 0): charge
 groups 1,2 | 2,3 where the specification demands 1,2 | 3,4. -/
 theorem C01_layout_resid0_counterexample :
@@ -143,7 +164,7 @@ theorem C01_layout_resid0_counterexample :
     (specMol Ex.ff ([⟨1, 0, "GLY", none⟩, ⟨2, 1, "GLY", none⟩] : List (ResNode Nat))).atoms.map (·.cgrp) =
       [1, 2, 3, 4] := by decide
 
-/-- The hypothesis `SingleBlock` (block atoms carry resid 1) of `C01_layout` cannot be dropped — known
+/-- The hypothesis `SingleBlock` (block atoms carry resid 1) of `C01_layout_partial` cannot be dropped — known
 finding block-resid-not-1: merged copies add the block's own resid to the running resid. -/
 theorem C01_layout_block_resid_counterexample :
     (addBlocks ⟨[⟨"X", 1, [⟨5, 1, []⟩], []⟩], []⟩ ⟨[(1, "X"), (2, "X"), (3, "X")], [], []⟩
@@ -152,13 +173,16 @@ theorem C01_layout_block_resid_counterexample :
 
 /-! ### frame: links -/
 
-/-- **C01_frame_links.**  For ANY sequence of link operations (whatever the matcher found; no atom
+/-- **C01_frame_links** (`_partial`: missing are blocks with two interactions of the same key, hypothesis
+`hkeys`, known finding dup-key-in-block, `C01_frame_links_dupkey_counterexample`; and links that remove
+atoms, hypothesis `hnorem`, known finding atom-removed-by-link — the residues are renumbered then).
+For ANY sequence of link operations (whatever the matcher found; no atom
 removal) applied to a molecule whose block interactions have pairwise distinct keys `(section, atoms,
 version)`: the interaction list is `core ++ generated exclusions`, where `core` has no duplicates,
 contains every block interaction whose key no link writes (so it stays, once, with its parameters and
 meta), and contains nothing but block interactions and link interactions; every atom keeps node, resid
 and charge group, and an atom that no link `replace`s is unchanged altogether. -/
-theorem C01_frame_links (m : Mol) (ops : List LinkOp) (genExcl : List Ixn)
+theorem C01_frame_links_partial (m : Mol) (ops : List LinkOp) (genExcl : List Ixn)
     (hkeys : (m.ixns.map keyOf).Nodup) (hnorem : removedNodes ops = []) :
     ∃ core, (applyLinks m ops genExcl).ixns = core ++ genExcl ∧ core.Nodup ∧
       (∀ i ∈ m.ixns, keyOf i ∉ (insertedIxns ops).map keyOf → i ∈ core) ∧
@@ -167,7 +191,7 @@ theorem C01_frame_links (m : Mol) (ops : List LinkOp) (genExcl : List Ixn)
       (∀ a ∈ m.atoms, a.node ∉ replacedNodes ops → a ∈ (applyLinks m ops genExcl).atoms) :=
   applyLinks_frame m ops genExcl hkeys hnorem
 
-/-- The hypothesis "pairwise distinct keys" of `C01_frame_links` cannot be dropped — this is the known
+/-- The hypothesis "pairwise distinct keys" of `C01_frame_links_partial` cannot be dropped — this is the known
 finding dup-key-in-block: two block interactions on the same atoms with the same version (a multi-term
 dihedral without version tags) — the first is lost although no link targets it. -/
 theorem C01_frame_links_dupkey_counterexample :
@@ -239,24 +263,27 @@ end Example
 and an out-of-order residue list starting at resid 7, and the conclusion is a concrete molecule -/
 example : ∃ st, addBlocks Ex.ff Ex.tbl Ex.nodes = .ok st ∧
     st.mol.atoms = (specMol Ex.ff Ex.nodes).atoms :=
-  C01_layout Ex.ff Ex.tbl Ex.nodes 7 (by decide) (by decide) Example.resids Example.regular
+  C01_layout_partial Ex.ff Ex.tbl Ex.nodes 7 (by decide) (by decide) Example.resids Example.regular
 
 example : (specMol Ex.ff Ex.nodes).atoms.map (fun a => (a.node, a.resid, a.cgrp)) =
     [(0, 7, 1), (1, 7, 2), (2, 8, 3), (3, 9, 4), (4, 9, 5)] := by decide
 
 example : ∃ st, addBlocks Ex.ff Ex.tbl Ex.nodes = .ok st ∧
     st.mol.ixns = (specMol Ex.ff Ex.nodes).ixns :=
-  C01_interactions Ex.ff Ex.tbl Ex.nodes 7 (by decide) (by decide) Example.resids Example.regular
+  C01_interactions_partial Ex.ff Ex.tbl Ex.nodes 7 (by decide) (by decide) Example.resids Example.regular
 
 example : (specMol Ex.ff Ex.nodes).ixns =
     [⟨"bonds", [0, 1], ["1", "0.3", "5000"], []⟩, ⟨"bonds", [3, 4], ["1", "0.3", "5000"], []⟩] := by decide
+
+example : ∃ st, addBlocks Ex.ff Ex.tbl Ex.nodes = .ok st ∧ st.graphs = [(3, [0, 1]), (10, [2]), (5, [3, 4])] :=
+  C01_graphs_partial Ex.ff Ex.tbl Ex.nodes 7 (by decide) (by decide) Example.resids Example.regular
 
 /-- `C01_multires` is not vacuous: 2·2 `from_itp` nodes (keys 28..31, inserted out of order) become two
 copies of the two-residue block, followed by a regular residue -/
 example : ∃ st, addBlocks Ex.ff Ex.tbl2 Ex.nodes2 = .ok st ∧
     st.mol.atoms = (specMol Ex.ff Ex.nodes2).atoms ∧
     st.mol.ixns = (specMol Ex.ff Ex.nodes2).ixns :=
-  C01_multires Ex.ff Ex.tbl2 Ex.nodes2 Example.segs2 1 (by decide) (by decide) (by decide)
+  C01_multires_partial Ex.ff Ex.tbl2 Ex.nodes2 Example.segs2 1 (by decide) (by decide) (by decide)
     (fun _ _ _ _ => rfl) (by decide) Example.segsOK (by decide)
 
 example : (specMol Ex.ff Ex.nodes2).atoms.map (fun a => (a.node, a.resid, a.cgrp)) =
